@@ -76,16 +76,22 @@ Definition int_max : Z := 2147483647.
 (* ints >= this round to 2**1024: "int too large to convert to float" *)
 Definition float_overflow : Z := (2 ^ 1024 - 2 ^ 970)%Z.
 
+Definition is_idx (c : N) : bool := mem c [111; 120; 88].             (* o x X: PyNumber_Index *)
+Definition is_dec (c : N) : bool := mem c [100; 105; 117].            (* d i u: PyNumber_Long *)
+Definition is_flt (c : N) : bool := mem c [101; 69; 102; 70; 103; 71]. (* e E f F g G: PyFloat_AsDouble *)
+
+(* the classes are pairwise disjoint, so the order of the tests is immaterial *)
 Definition conv_ok (is_bytes : bool) (c : N) (o : obj) : bool :=
-  if mem c [100; 105; 117] then                     (* d i u: PyNumber_Long *)
+  if is_idx c then int_like o
+  else if is_dec c then
     match o with OInt _ | OBool _ => true | OFloat fin => fin | _ => false end
-  else if mem c [111; 120; 88] then int_like o      (* o x X: PyNumber_Index *)
-  else if mem c [101; 69; 102; 70; 103; 71] then    (* e E f F g G: PyFloat_AsDouble *)
+  else if is_flt c then
     match o with
     | OInt z => (Z.abs z <? float_overflow)%Z
     | OBool _ | OFloat _ => true
     | _ => false
     end
+  else if (c =? ch_a) || (c =? ch_r) then true
   else if c =? ch_c then
     match o with
     | OInt z => (0 <=? z)%Z && (z <? (if is_bytes then 256 else 1114112))%Z
@@ -94,9 +100,8 @@ Definition conv_ok (is_bytes : bool) (c : N) (o : obj) : bool :=
     | OBytes s => is_bytes && (length s =? 1)%nat
     | _ => false
     end
-  else if c =? ch_s then (negb is_bytes || is_bytes_obj o)
   else if c =? ch_b then (is_bytes && is_bytes_obj o)   (* 'b' is unsupported in text templates *)
-  else if (c =? ch_r) || (c =? ch_a) then true
+  else if c =? ch_s then (negb is_bytes || is_bytes_obj o)
   else false.                                        (* unsupported format character *)
 
 (* `*`: PyLong_Check, then PyLong_AsSsize_t (width) / PyLong_AsInt (precision) *)
